@@ -4,6 +4,7 @@ import (
 	"fmt"
 	"go/types"
 	"regexp"
+	"sort"
 	"strings"
 
 	"github.com/dave/jennifer/jen"
@@ -121,7 +122,13 @@ func Parse(obj types.Object, opts *ParseOpts, localOpts LocalOpts) (*Definition,
 
 		methodDef.RawArgs = append(methodDef.RawArgs, arg)
 	}
+	contextNames := make([]string, 0, len(localOpts.Context))
 	for name := range localOpts.Context {
+		contextNames = append(contextNames, name)
+	}
+	// report the alphabetically first unknown name, not a random one
+	sort.Strings(contextNames)
+	for _, name := range contextNames {
 		found := false
 		for _, arg := range methodDef.RawArgs {
 			if arg.Name == name {
